@@ -231,8 +231,7 @@ def draw_options(rng, ts, info, method=None, flavour=None):
         kw["constr_iterations"] = int(rng.choice([0, 1, 10, 100]))
     if method == "variational_gamma":
         kw["max_iterations"] = int(rng.choice([1, 2, 5, 10, 25]))
-        # F5: sparse inputs trip the rescaling assertion; keep the number of intervals small
-        kw["rescaling_intervals"] = int(rng.choice([0, 1, 2, 3, 5]))
+        kw["rescaling_intervals"] = int(rng.choice([0, 1, 2, 3, 5, 20, 1000]))
         if rng.random() < 0.3:
             kw["rescaling_iterations"] = int(rng.choice([1, 2, 5]))
         if rng.random() < 0.3:
@@ -745,3 +744,205 @@ def near_tie_rescaling(ts0, kw0, ts1, kw1, c_time):
     if n0 + n1 > 0 or e0 != e1:
         return dict(kind=NEAR_TIE, exact_ties=(e0, e1), near_ties=(n0, n1))
     return None
+
+
+# ============================================================================= stage B: the EP skeleton
+
+def _ages(constraints):
+    return " ".join(f2h(lo) if lo == hi else "n" for lo, hi in constraints)
+
+
+def ep_snapshot(ep):
+    f = ep.factors
+    return dict(post=np.array(ep.node_posterior, copy=True), efac=np.array(f.edge, copy=True),
+                nfac=np.array(f.node, copy=True), bfac=np.array(f.block, copy=True), scale=np.array(f.scale, copy=True))
+
+
+def ep_clone_factors(ep, snap):
+    from tsdate import variational
+    f2 = variational.EPFactors(ep.node_constraints, ep.edge_parents, ep.edge_children, ep.block_nodes[0], ep.block_nodes[1])
+    f2.node[:] = snap["nfac"]
+    f2.edge[:] = snap["efac"]
+    f2.block[:] = snap["bfac"]
+    f2.scale[:] = snap["scale"]
+    return f2
+
+
+def ep_state_fields(ep, snap):
+    return dict(post=_hx(snap["post"].reshape(-1)), efac=_hx(snap["efac"].reshape(-1)),
+                nfac=_hx(snap["nfac"][:, 0, :].reshape(-1)), scale=_hx(snap["scale"]))
+
+
+def ep_piece(ctx, res, stats, batch, checks, n_cases, time_scales=(1.0,)):
+    """The EP skeleton of the model against the real `ExpectationPropagation`: `_damp`, `_rescale`, `node_moments`,
+    `propagate_prior` on real mid-run states, and single-edge `propagate_likelihood` updates where the model computes
+    the damping and the cavities, the REAL projection kernel is called on exactly those arguments, and the model
+    finishes the update (factor, posterior and scale); everything bit-for-bit."""
+    from tsdate import approx, variational
+    rng = ctx.rng(17)
+    TINY = float(variational.TINY)
+    pre = Batch()
+    pending = []
+    for k in range(n_cases):
+        ts, info = draw_ts(rng, "variational_gamma", hist=bool(k % 2))
+        if any(ts.node(u).time != 0 for u in ts.samples()) and ts.num_individuals > 0:
+            pass
+        c = float(time_scales[k % len(time_scales)])
+        if c != 1.0:
+            ts = scale_times_ts(ts, c)
+        mu = float(info["mu"]) / c
+        try:
+            ep = variational.ExpectationPropagation(ts, mutation_rate=mu)
+        except BaseException as e:  # noqa: BLE001
+            if isinstance(e, (KeyboardInterrupt, MemoryError)):
+                raise
+            continue
+        if ep.block_order.size:
+            continue
+        max_shape = float(rng.choice([1000.0, 10.0, 2.5]))
+        min_step = 0.1
+        for _ in range(int(rng.integers(0, 3))):
+            ep.iterate(max_shape=max_shape, min_step=min_step, regularise=bool(rng.random() < 0.7))
+        m = int(rng.integers(0, ep.edge_order.size + 1))
+        if m:
+            lognorm = np.zeros(ep.edge_parents.size)
+            ep.propagate_likelihood(ep.edge_order[:m], ep.edge_parents, ep.edge_children, ep.edge_likelihoods,
+                                    ep.node_constraints, ep.node_posterior, ep.factors, lognorm, max_shape, min_step, False)
+        snap = ep_snapshot(ep)
+        res.evaluations += 1
+        stats["ep_states"] = stats.get("ep_states", 0) + 1
+        common_fields = dict(ep_state_fields(ep, snap), ep=_ns(ep.edge_parents), ec=_ns(ep.edge_children),
+                             lik=_hx(ep.edge_likelihoods.reshape(-1)), ages=_ages(ep.node_constraints),
+                             minstep=f2h(min_step), tiny=f2h(TINY))
+        tag = f"ep:{k}:c={c!r}"
+        # ---- node_moments
+        post_ok = np.all(snap["post"][:, 1] > 0) if m or True else True
+        fixed = ep.node_constraints[:, 0] == ep.node_constraints[:, 1]
+        if np.all(snap["post"][~fixed, 1] > 0):
+            mn, va = ep.node_moments()
+            i_m = batch.add("moments", dict(ages=_ages(ep.node_constraints), post=_hx(snap["post"].reshape(-1))), dict(tag=tag))
+
+            def chk_m(rep, i_m=i_m, mn=mn, va=va, tag=tag):
+                r = rep.get(i_m)
+                if r is None or not (same_bits(fsec(r[0]), mn) and same_bits(fsec(r[1]), va)):
+                    return [("node-moments-differ", f"{tag}: model nodeMoments differs from ExpectationPropagation.node_moments")]
+                return []
+            checks.append((chk_m, None))
+        # ---- propagate_prior on this state
+        free = ep.unconstrained_roots
+        if np.any(free) and np.all((snap["post"] - snap["nfac"][:, 0, :] * snap["scale"][:, None])[free, 1] > 0):
+            post2 = snap["post"].copy()
+            f2 = ep_clone_factors(ep, snap)
+            try:
+                ep.propagate_prior(free, post2, f2, max_shape, 10, 1e-8)
+                okp = True
+            except BaseException as e:  # noqa: BLE001
+                if isinstance(e, (KeyboardInterrupt, MemoryError)):
+                    raise
+                okp = False
+            if okp:
+                i_p = batch.add("prior", dict(ep_state_fields(ep, snap), free=_ns(free.astype(int)), maxshape=f2h(max_shape),
+                                              reltol=f2h(1e-8), maxitt="10"), dict(tag=tag))
+                nf2, sc2_ = np.array(f2.node[:, 0, :], copy=True), np.array(f2.scale, copy=True)
+
+                def chk_p(rep, i_p=i_p, post2=post2, nf2=nf2, sc2_=sc2_, tag=tag):
+                    r = rep.get(i_p)
+                    if r is None:
+                        return [("model-rejects-prior", f"{tag}: driver refused propagate_prior")]
+                    bad = []
+                    if not same_bits(fsec(r[0]), post2.reshape(-1)):
+                        bad.append(("propagate-prior-posterior-differs", f"{tag}: model posterior after propagate_prior differs "
+                                    f"(max rel {relerr(fsec(r[0]), post2.reshape(-1)):.3g})"))
+                    if not same_bits(fsec(r[1]), nf2.reshape(-1)):
+                        bad.append(("propagate-prior-factor-differs", f"{tag}: model MIXPRIOR factors differ"))
+                    if not same_bits(fsec(r[2]), sc2_):
+                        bad.append(("propagate-prior-scale-differs", f"{tag}: model scale differs"))
+                    return bad
+                checks.append((chk_p, None))
+                stats["ep_prior_cases"] = stats.get("ep_prior_cases", 0) + 1
+        # ---- single-edge updates: phase 1 (model computes the projection arguments)
+        E = ep.edge_parents.size
+        for ei in [int(x) for x in rng.choice(E, size=min(4, E), replace=False)]:
+            i_pre = pre.add("ep_pre", dict(common_fields, ei=str(ei)), dict(tag=tag))
+            pending.append((i_pre, ep, snap, ei, max_shape, min_step, common_fields, tag))
+    rep_pre = pre.run()
+    stats["driver_cases_pre"] = len(pre.blocks)
+    for (i_pre, ep, snap, ei, max_shape, min_step, common_fields, tag) in pending:
+        r = rep_pre.get(i_pre)
+        # real single-edge update on a copy of the state
+        post2 = snap["post"].copy()
+        f2 = ep_clone_factors(ep, snap)
+        lognorm = np.zeros(ep.edge_parents.size)
+        try:
+            ep.propagate_likelihood(np.array([ei], dtype=np.int32), ep.edge_parents, ep.edge_children, ep.edge_likelihoods,
+                                    ep.node_constraints, post2, f2, lognorm, max_shape, min_step, False)
+        except BaseException as e:  # noqa: BLE001   (an assert of _damp on a degenerate state)
+            if isinstance(e, (KeyboardInterrupt, MemoryError)):
+                raise
+            stats["ep_edge_rejected"] = stats.get("ep_edge_rejected", 0) + 1
+            continue
+        real_post = post2.reshape(-1)
+        real_fac = np.array(f2.edge[ei], copy=True).reshape(-1)
+        real_scale = np.array(f2.scale, copy=True)
+        if r is None:
+            checks.append((lambda rep, tag=tag, ei=ei: [("model-rejects-edge", f"{tag}: driver refused edge {ei}")], None))
+            continue
+        kind = r[0][0]
+        stats.setdefault("ep_edge_cases", {})
+        stats["ep_edge_cases"][kind] = stats["ep_edge_cases"].get(kind, 0) + 1
+        if kind == "skip":
+            args, vals = [0.0], [0.0, 0.0]
+        else:
+            a = fsec(r[1])
+            if not np.all(np.isfinite(a)):
+                continue
+            if kind == "joint":
+                _, pi, pj = approx.gamma_projection(a[0:2].copy(), a[2:4].copy(), a[4:6].copy())
+                vals = [pi[0], pi[1], pj[0], pj[1]]
+            elif kind == "root":
+                _, pi = approx.rootward_projection(float(a[0]), a[1:3].copy(), a[3:5].copy())
+                vals = [pi[0], pi[1]]
+            else:
+                _, pj = approx.leafward_projection(float(a[0]), a[1:3].copy(), a[3:5].copy())
+                vals = [pj[0], pj[1]]
+            args = list(a)
+        i_post = batch.add("ep_post", dict(common_fields, ei=str(ei), args=_hx(args), vals=_hx(vals), maxshape=f2h(max_shape)),
+                           dict(tag=tag))
+
+        def chk_e(rep, i_post=i_post, real_post=real_post, real_fac=real_fac, real_scale=real_scale, tag=tag, ei=ei, kind=kind):
+            rr = rep.get(i_post)
+            if rr is None:
+                return [("model-rejects-edge", f"{tag}: driver refused the update of edge {ei}")]
+            bad = []
+            if not same_bits(fsec(rr[0]), real_post):
+                bad.append(("ep-edge-posterior-differs", f"{tag}: edge {ei} ({kind}): model posterior differs from propagate_likelihood "
+                            f"(max rel {relerr(fsec(rr[0]), real_post):.3g})"))
+            if not same_bits(fsec(rr[1]), real_fac):
+                bad.append(("ep-edge-factor-differs", f"{tag}: edge {ei} ({kind}): model edge factors differ"))
+            if not same_bits(fsec(rr[2]), real_scale):
+                bad.append(("ep-edge-scale-differs", f"{tag}: edge {ei} ({kind}): model scale differs"))
+            return bad
+        checks.append((chk_e, None))
+    # ---- _damp / _rescale on random valid arguments
+    for _ in range(max(10, n_cases * 3)):
+        x = np.array([rng.uniform(-0.9, 50), 10.0 ** rng.uniform(-8, 3)])
+        y = x * rng.uniform(0.0, 1.6, size=2) * (rng.random(2) < 0.9)
+        s = float(rng.choice([0.1, 0.5, 0.01]))
+        try:
+            d = float(variational._damp(x, y, s))
+            i_d = batch.add("damp", dict(x=_hx(x), y=_hx(y), s=f2h(s)), dict(tag="damp"))
+            checks.append((lambda rep, i_d=i_d, d=d: [] if rep.get(i_d) is not None and same_bits(fsec(rep[i_d][0]), [d])
+                           else [("damp-differs", "model damp differs from variational._damp")], None))
+        except BaseException as e:  # noqa: BLE001
+            if isinstance(e, (KeyboardInterrupt, MemoryError)):
+                raise
+        ms = float(rng.choice([1000.0, 10.0, 2.5]))
+        xr = np.array([rng.uniform(-0.9, 3 * ms), 10.0 ** rng.uniform(-8, 3)])
+        try:
+            e_ = float(variational._rescale(xr, ms))
+            i_r = batch.add("rescale", dict(x=_hx(xr), s=f2h(ms)), dict(tag="rescale"))
+            checks.append((lambda rep, i_r=i_r, e_=e_: [] if rep.get(i_r) is not None and same_bits(fsec(rep[i_r][0]), [e_])
+                           else [("rescale-differs", "model rescaleEta differs from variational._rescale")], None))
+        except BaseException as e:  # noqa: BLE001
+            if isinstance(e, (KeyboardInterrupt, MemoryError)):
+                raise
